@@ -302,8 +302,18 @@ func (x *g) expr(ty string, d int) string {
 			x.form("cond")
 			c := x.expr("Bool", d-1)
 			x.cond++
-			a := x.expr("Int?", d-1)
-			b := x.expr("Int?", d-1)
+			// mixed branches (`Int` and `Int?`/nil) exercise the boxing of the conditional's value;
+			// used as the left operand of `??` they hit the known finding conditional-result-not-boxed
+			ta, tb := "Int?", "Int?"
+			if r.Chance(30) {
+				ta = "Int"
+			}
+			a := x.expr(ta, d-1)
+			b := x.expr(tb, d-1)
+			if ta == "Int" && r.Chance(40) {
+				b = "nil"
+				x.form("cond-mixed-nil")
+			}
 			x.cond--
 			return "(" + c + " ? " + a + " : " + b + ")"
 		default:
@@ -475,6 +485,207 @@ func (x *g) mutator(ind, stmt string) string {
 	name := "mut" + strconv.Itoa(len(x.methods))
 	x.methods = append(x.methods, "    access(all) fun "+name+"() { "+stmt+" }\n")
 	return ind + x.r.Pick([]string{"s", "s2"}) + "." + name + "()\n"
+}
+
+// L0 prelude: functions only (no structs, arrays, dictionaries): programs the model compiler covers.
+const PreludeL0 = `access(all) fun ti(_ id: String, _ v: Int): Int { log(id); return v }
+access(all) fun t8(_ id: String, _ v: Int8): Int8 { log(id); return v }
+access(all) fun tu(_ id: String, _ v: UInt8): UInt8 { log(id); return v }
+access(all) fun tb(_ id: String, _ v: Bool): Bool { log(id); return v }
+access(all) fun to(_ id: String, _ v: Int?): Int? { log(id); return v }
+access(all) fun sub3(_ a: Int, _ b: Int, _ c: Int): Int { return a - b - c }
+access(all) fun fact(_ n: Int): Int { if n <= 1 { return 1 }; return n * fact(n - 1) }
+access(all) fun opt(_ n: Int): Int? { if n > 3 { return nil }; return n }
+access(all) fun gcd(_ a: Int, _ b: Int): Int { var x = a; var y = b; while y != 0 { let t = y; y = x % y; x = t }; return x }
+`
+
+// exprL0 / stmtL0: the L0 sub-language (Int, Int8, UInt8, Bool, Int? locals; calls; if / while / break /
+// continue / return).
+func (x *g) exprL0(ty string, d int) string {
+	r := x.r
+	if d <= 0 || r.Chance(15) {
+		if ty == "Int" && r.Chance(40) {
+			return r.Pick([]string{"n", "m", "n", "m", "k"})
+		}
+		if ty == "Int?" && r.Chance(30) {
+			return "ob"
+		}
+		if ty == "Bool" && r.Chance(20) {
+			return "bv"
+		}
+		return x.leaf(ty)
+	}
+	switch ty {
+	case "Int":
+		switch r.Intn(12) {
+		case 0, 1, 2, 3, 4:
+			op := r.Pick(intOps)
+			x.form("bin" + op)
+			return "(" + x.exprL0("Int", d-1) + " " + op + " " + x.exprL0("Int", d-1) + ")"
+		case 5:
+			x.form("neg")
+			return "(-" + x.exprL0("Int", d-1) + ")"
+		case 6:
+			x.form("cond")
+			c := x.exprL0("Bool", d-1)
+			x.cond++
+			a, b := x.exprL0("Int", d-1), x.exprL0("Int", d-1)
+			x.cond--
+			return "(" + c + " ? " + a + " : " + b + ")"
+		case 7:
+			x.form("coalesce")
+			a := x.exprL0("Int?", d-1)
+			x.cond++
+			b := x.exprL0("Int", d-1)
+			x.cond--
+			return "(" + a + " ?? " + b + ")"
+		case 8:
+			x.form("args")
+			return "sub3(" + x.exprL0("Int", d-1) + ", " + x.exprL0("Int", d-1) + ", " + x.exprL0("Int", d-1) + ")"
+		case 9:
+			x.form("force")
+			return x.exprL0("Int?", d-1) + "!"
+		case 10:
+			x.form("recursion")
+			return "fact(" + fmt.Sprintf("ti(%s, %d)", x.idS(), r.Intn(6)) + ")"
+		default:
+			x.form("call-loop")
+			return "gcd(" + x.exprL0("Int", d-1) + ", " + fmt.Sprintf("ti(%s, %d)", x.idS(), r.Intn(30)) + ")"
+		}
+	case "Int8", "UInt8":
+		op := r.Pick(intOps)
+		x.form("sized" + op)
+		return "(" + x.exprL0(ty, d-1) + " " + op + " " + x.exprL0(ty, d-1) + ")"
+	case "Bool":
+		switch r.Intn(6) {
+		case 0:
+			x.form("and")
+			a := x.exprL0("Bool", d-1)
+			x.cond++
+			b := x.exprL0("Bool", d-1)
+			x.cond--
+			return "(" + a + " && " + b + ")"
+		case 1:
+			x.form("or")
+			a := x.exprL0("Bool", d-1)
+			x.cond++
+			b := x.exprL0("Bool", d-1)
+			x.cond--
+			return "(" + a + " || " + b + ")"
+		case 2:
+			x.form("not")
+			return "(!" + x.exprL0("Bool", d-1) + ")"
+		default:
+			op := r.Pick(cmpOps)
+			x.form("cmp" + op)
+			return "(" + x.exprL0("Int", d-1) + " " + op + " " + x.exprL0("Int", d-1) + ")"
+		}
+	case "Int?":
+		switch r.Intn(3) {
+		case 0:
+			x.form("call-optional")
+			return "opt(" + x.exprL0("Int", d-1) + ")"
+		case 1:
+			x.form("cond")
+			c := x.exprL0("Bool", d-1)
+			x.cond++
+			a, b := x.exprL0("Int?", d-1), x.exprL0("Int?", d-1)
+			x.cond--
+			return "(" + c + " ? " + a + " : " + b + ")"
+		}
+	}
+	return x.leaf(ty)
+}
+
+func (x *g) stmtsL0(k, d, nest int, inLoop bool) string {
+	var b strings.Builder
+	for i := 0; i < k; i++ {
+		st := x.stmtL0(d, nest, inLoop)
+		b.WriteString(st)
+		t := strings.TrimSpace(st)
+		if strings.HasPrefix(t, "return ") || t == "break" || t == "continue" {
+			break
+		}
+	}
+	return b.String()
+}
+
+func (x *g) stmtL0(d, nest int, inLoop bool) string {
+	r := x.r
+	ind := strings.Repeat("    ", nest+1)
+	switch c := r.Intn(12); {
+	case c <= 2:
+		x.form("assign-var")
+		return ind + r.Pick([]string{"n", "m", "k"}) + " = " + x.exprL0("Int", d) + "\n"
+	case c == 3:
+		x.form("let")
+		x.loops++
+		v := fmt.Sprintf("v%d", x.loops)
+		return ind + "let " + v + " = " + x.exprL0("Int", d) + "\n" + ind + "m = m + " + v + "\n"
+	case c == 4:
+		x.form("let-optional")
+		return ind + "ob = " + x.exprL0(r.Pick([]string{"Int", "Int?"}), d) + "\n"
+	case c == 5:
+		x.form("assign-bool")
+		return ind + "bv = " + x.exprL0("Bool", d) + "\n"
+	case c == 6 || c == 7:
+		x.form("if")
+		cnd := x.exprL0("Bool", d)
+		x.cond++
+		th := x.stmtsL0(1+r.Intn(2), d-1, nest+1, inLoop)
+		el := ""
+		if r.Bool() {
+			x.form("if-else")
+			x.noRet++
+			el = " else {\n" + x.stmtsL0(1+r.Intn(2), d-1, nest+1, inLoop) + ind + "}"
+			x.noRet--
+		}
+		x.cond--
+		return ind + "if " + cnd + " {\n" + th + ind + "}" + el + "\n"
+	case c == 8 && nest < 2:
+		x.form("while")
+		wasLoop := x.loop
+		x.loop = true
+		x.cond++
+		x.loops++
+		cv := "c" + strconv.Itoa(x.loops)
+		body := x.stmtsL0(1+r.Intn(3), d-1, nest+1, true)
+		x.cond--
+		x.loop = wasLoop
+		return ind + "var " + cv + " = 0\n" + ind + "while " + cv + " < " + strconv.Itoa(1+r.Intn(4)) + " {\n" +
+			ind + "    " + cv + " = " + cv + " + 1\n" + body + ind + "}\n"
+	case c == 9 && inLoop && nest > 1:
+		x.form("break")
+		return ind + "break\n"
+	case c == 10 && inLoop && nest > 1:
+		x.form("continue")
+		return ind + "continue\n"
+	case c == 11 && nest > 0 && x.noRet == 0:
+		x.form("early-return")
+		defer func() { x.sticky = true }()
+		return ind + "return " + x.exprL0("Int", d) + "\n"
+	case c == 9:
+		x.form("sized")
+		return ind + "log(" + x.exprL0(r.Pick([]string{"Int8", "UInt8"}), d) + ")\n"
+	default:
+		x.form("expr-stmt")
+		return ind + x.exprL0("Int", d) + "\n"
+	}
+}
+
+// GenerateL0 builds a program of layer L0 (values profile).
+func GenerateL0(r *hx.Rng) *Prog {
+	x := &g{r: r, forms: map[string]bool{"L0": true}, values: true}
+	body := x.stmtsL0(2+r.Intn(5), 2+r.Intn(2), 0, false)
+	src := PreludeL0 + "access(all) fun main(): Int {\n" +
+		"    var n = 0\n    var m = 1\n    var k = 7\n    var bv = false\n    var ob: Int? = nil\n" +
+		body + "    log(n); log(m); log(k); log(bv); log(ob)\n    return n + m\n}\n"
+	forms := make([]string, 0, len(x.forms))
+	for f := range x.forms {
+		forms = append(forms, f)
+	}
+	sortStrings(forms)
+	return &Prog{Src: src, Once: x.once, MaxID: x.next, Forms: forms}
 }
 
 // Generate builds one program.  profile: "order" (evaluation-order profile: no deliberate errors) or
